@@ -717,12 +717,6 @@ class DAG(BaseDAG[P, RVDAG]):
 
             input_uxns = [UsageExecNode(to_subdag_id(uxn.id), uxn.key) for uxn in self.input_uxns]
 
-            # a deactivated SubDAG yields None for all its outputs, also for a parameter it hands straight back:
-            #  the defaults of the omitted parameters are forwarded like provided args so that they carry the activation
-            omitted_uxns = self.input_uxns[len(args) :]
-            if is_active and all(uxn.id in self.results for uxn in omitted_uxns):
-                args = (*args, *(self.results[uxn.id] for uxn in omitted_uxns))  # type: ignore[assignment]
-
             # provided args to the subdag
             arg_uxns = construct_subdag_arg_uxns(
                 *args, to_subdag_id=to_subdag_id, qualname=self.qualname
@@ -745,6 +739,38 @@ class DAG(BaseDAG[P, RVDAG]):
                 # pass kwargs to pass in the twz_active!
                 _val: UsageExecNode = stub(axn, **kwargs)
                 registered_input_ids.append(uxn.id)
+
+            # a deactivated SubDAG yields None for all its outputs, also for a constant that it hands straight back
+            #  (the default of a parameter that the caller omitted, in this SubDAG or in a SubDAG it contains):
+            #  such a constant goes through a stub that carries the activation, like a provided arg
+            if is_active:
+                returned_uxns: Iterable[Any] = (
+                    self.return_uxns.values()
+                    if isinstance(self.return_uxns, dict)
+                    else self.return_uxns
+                    if isinstance(self.return_uxns, (tuple, list))
+                    else [self.return_uxns]
+                )
+                for id_ in dict.fromkeys(
+                    uxn.id for uxn in returned_uxns if isinstance(uxn, UsageExecNode)
+                ):
+                    new_id = to_subdag_id(id_)
+                    if (
+                        id_ in self.results
+                        and isinstance(self.exec_nodes[id_], ArgExecNode)
+                        and new_id not in registered_input_ids
+                    ):
+                        (axn,) = construct_subdag_arg_uxns(
+                            self.results[id_], to_subdag_id=to_subdag_id, qualname=id_
+                        )
+                        LazyExecNode(
+                            id_=new_id,
+                            exec_function=lambda x: x,
+                            resource=consts.Resource.main_thread,
+                            args=[axn],
+                            call_location_frame=2,
+                        )(axn, **kwargs)
+                        registered_input_ids.append(new_id)
 
             # updating ids of results already registered in the DAG due to pipeline.setup and default args
             # (the default value of an input that is provided by the caller must not shadow the provided value)
